@@ -1,5 +1,5 @@
 (** C05 - The server never overbooks a worker and only places tasks where they can run. *)
-From HQ Require Import Base.Prelude Cluster.Types Cluster.Core Cluster.Reactor Cluster.Worker Cluster.Server Cluster.Sys Cluster.Monitors Cluster.ProofsJob Cluster.ProofsCore Cluster.ProofsMore Cluster.BijFinal Cluster.RejHyp Cluster.InvWFinal.
+From HQ Require Import Base.Prelude Cluster.Types Cluster.Core Cluster.Reactor Cluster.Worker Cluster.Server Cluster.Sys Cluster.Monitors Cluster.ProofsJob Cluster.ProofsCore Cluster.ProofsMore Cluster.BijFinal Cluster.RejHyp Cluster.InvWFinal Cluster.CrashFrame Cluster.ProofsOnce Cluster.BijWitness.
 From Coq Require Import ZArith.
 Local Open Scope N_scope.
 From HQ Require Sched.Model Sched.ProofsRows.
@@ -52,6 +52,14 @@ Theorem C05_worker_sets_invariant : forall ops reserve maxfill s outs,
      end).
 Proof. exact worker_sets_invariant. Qed.
 
+(** The hypotheses of the invariant are met by concrete histories that reach non-trivial states
+    (a running task whose worker is lost; a task that runs and finishes). *)
+Theorem C05_hypotheses_example :
+  Forall op_wf (crash_ops ++ [crash_last]) /\ run_fresh (init_sys 0 2) (crash_ops ++ [crash_last]) = true /\
+  Forall op_wf once_ops /\ run_fresh (init_sys 0 2) once_ops = true.
+Proof. split; [repeat constructor|]. split; [vm_compute; reflexivity|]. split; [repeat constructor | vm_compute; reflexivity]. Qed.
+
+Print Assumptions C05_hypotheses_example.
 Print Assumptions C05_worker_sets_invariant.
 Print Assumptions C05_reservation_roundtrip.
 Print Assumptions C05_mn_only_on_free_workers.
